@@ -23,9 +23,12 @@ mkdir -p $OUT && cp $SRC/$K.diff $OUT/patch.diff && cp $SRC/${K}_demo_test.go $O
 cd /repo && git apply $OUT/patch.diff || { echo "patch does not apply to /repo"; exit 4; }
 res=""
 for prop in $P "$@"; do
+  cp /verif/evidence/$prop.json /tmp/seed-evidence-$prop.json 2>/dev/null
   (cd /verif && ./bin/vcheck -p $prop -tier quick > /tmp/seed-vcheck-$prop.log 2>&1); code=$?
   res="$res $prop:exit$code"
   tail -3 /tmp/seed-vcheck-$prop.log
+  cp /tmp/seed-evidence-$prop.json /verif/evidence/$prop.json 2>/dev/null
+  rm -f /verif/evidence/replays/$prop-*.json
 done
 git -C /repo checkout -- . ; git -C /repo status --short
 echo "RESULT $P-$K:$res"
